@@ -208,7 +208,7 @@ def r2_copy_completeness(R) -> None:
 
 
 # ---------------------------------------------------------------------------
-def _escapes(f: Fn, consts: Set[str], params: Tuple[str, ...] = (), depth: int = 0) -> List[Tuple[ast.AST, str, int]]:
+def _escapes(f: Fn, consts: Set[str], params: Tuple[str, ...] = (), depth: int = 0, results_of: Tuple[str, ...] = ()) -> List[Tuple[ast.AST, str, int]]:
     """(node, description, lineno) where a class-level mutable flows uncopied
     into something that may keep it.  `params`: parameters of this function that hold such an object (it was handed
     to this method by a caller): their uses are judged the same way, while they still hold what was passed."""
@@ -218,7 +218,7 @@ def _escapes(f: Fn, consts: Set[str], params: Tuple[str, ...] = (), depth: int =
         for c in ast.iter_child_nodes(n):
             par[id(c)] = n
     recv = fi.node.args.args[0].arg if fi.node.args.args else None
-    if recv not in ('self', 'cls') and not params:
+    if recv not in ('self', 'cls') and not params and not results_of:
         return []
 
     def is_const_load(x: ast.AST) -> Optional[str]:
@@ -260,6 +260,22 @@ def _escapes(f: Fn, consts: Set[str], params: Tuple[str, ...] = (), depth: int =
                             out.append((p, f'`{what}` is passed to `{text(p.func)}(...)`, where {why_}', getattr(p, 'lineno', 0)))
                         if returned and not others:
                             judge_use(p, f'{what} (returned by `{p.func.attr}`)')
+                        return
+            # handed to a function of the package (called by its bare name): follow it there the same way
+            if isinstance(p.func, ast.Name) and depth < 2 and x in p.args and not any(isinstance(a_, ast.Starred) for a_ in p.args):
+                cands = [g_ for g_ in f.repo.all_functions() if g_.name == p.func.id and g_.cls is None and g_.parent is None]
+                if len(cands) == 1:
+                    ci = cands[0]
+                    pos = ci.node.args.args
+                    k = p.args.index(x)
+                    if k < len(pos):
+                        inner = _escapes(Fn(f.R, ci.qualname), consts, params=(pos[k].arg,), depth=depth + 1)
+                        returned = [e_ for e_ in inner if 'is returned uncopied' in e_[1]]
+                        others = [e_ for e_ in inner if e_ not in returned]
+                        for (n_, why_, ln_) in others:
+                            out.append((p, f'`{what}` is passed to `{text(p.func)}(...)`, where {why_}', getattr(p, 'lineno', 0)))
+                        if returned and not others:
+                            judge_use(p, f'{what} (returned by `{p.func.id}`)')
                         return
             out.append((p, f'`{what}` is passed uncopied to `{text(p.func)}(...)`', getattr(p, 'lineno', 0)))
             return
@@ -325,6 +341,11 @@ def _escapes(f: Fn, consts: Set[str], params: Tuple[str, ...] = (), depth: int =
         nm = is_const_load(x)
         if nm is not None:
             judge_use(x, f'{recv}.{nm}')
+    # calls of a private helper that returns a class-level object as it is: the call stands for the object
+    for x in ast.walk(fi.node):
+        if isinstance(x, ast.Call) and isinstance(x.func, ast.Attribute) and x.func.attr in results_of and isinstance(x.func.value, ast.Name) \
+                and x.func.value.id in ('self', 'cls'):
+            judge_use(x, f'the class-level object returned by `{x.func.attr}()`')
     # parameters that hold a class-level object: every read made while the name still refers to what was passed
     for pn in params:
         for n in f.cfg.nodes:
@@ -356,6 +377,27 @@ def r3_class_constants(R) -> None:
             R.ok(fi.qualname, f'{len(loads)} read(s) of class-level mutable attributes: copied before being kept, or read-only',
                  detail=sorted({x.attr for x in loads}))
         seen = set()
+        # a private helper that returns the class-level object as it is: what matters is what its callers do with the result
+        handed_back = [e_ for e_ in esc if 'is returned uncopied' in e_[1]]
+        if handed_back and fi.name.startswith('_') and not fi.name.startswith('__') and len(handed_back) == len(esc):
+            callers = [g_ for g_ in R.repo.all_functions() if g_.qualname != fi.qualname and any(
+                isinstance(x, ast.Call) and isinstance(x.func, ast.Attribute) and x.func.attr == fi.name for x in ast.walk(g_.node))]
+            if callers and all(isinstance(x.func.value, ast.Name) and x.func.value.id in ('self', 'cls') for g_ in callers for x in ast.walk(g_.node)
+                               if isinstance(x, ast.Call) and isinstance(x.func, ast.Attribute) and x.func.attr == fi.name):
+                esc = []
+                for g_ in callers:
+                    for (node, why, line) in _escapes(Fn(R, g_.qualname), consts, results_of=(fi.name,), depth=1):
+                        if 'returned by `' + fi.name in why:
+                            R.violation(g_.qualname, f'class-const-escape:{why}', f'{why}: instances (and the class) would share one mutable object',
+                                        where=f'{g_.module.relpath}:{line}')
+                R.ok(fi.qualname, f'returns a class-level mutable attribute as it is; {len(callers)} caller(s) judged on what they do with the result',
+                     detail=sorted(g_.qualname for g_ in callers))
+            elif not callers:
+                from fsa.source import baseline
+                if baseline() and fi.qualname not in baseline():
+                    # a helper the rules do not anchor on is read in place of its calls: its callers were judged with its body in them
+                    esc = []
+                    R.ok(fi.qualname, 'returns a class-level mutable attribute as it is; read in place of its calls, where the use of the result is judged')
         for (node, why, line) in esc:
             key = f'class-const-escape:{why}'
             if key in seen:
